@@ -16,6 +16,7 @@ h_tmpN -> pending effect sequence.  Contracts on the real functions:
   * folding away a dead arm removes its pending effect (C evaluates it zero times).
 """
 from __future__ import annotations
+import re
 import z3
 from lark import Token
 
@@ -410,6 +411,38 @@ def gen_selected(loader, check, replay_on=True):
                     check.ob("conditional_expr#side-effect-of-an-arm-runs-only-if-that-arm-is-selected", inst, pc, guarded, replay=rp,
                              detail="the pending effect of the arm is sequenced unconditionally")
 
+    # both arms are statement-expressions: each one is guarded by its own side of the condition
+    inst = "stmt-expr in both arms"
+    check.instances_declared += 1
+
+    def setup_2(it):
+        t = tkit.mk_transformer(it)
+        h1, _ = mk_hybrid(it, loader, "stmt-expr")
+        h2, _ = mk_hybrid(it, loader, "stmt-expr")
+        t1 = it.call(tkit.method(it, t, "resolve_hybrid"), [h1], {})
+        t2 = it.call(tkit.method(it, t, "resolve_hybrid"), [h2], {})
+        c = irkit.mk_operand(it, "Variable", (True, 32), "c")
+        it.ctx.mark_pre(t)
+        return {"t": t, "items": [c, t1, t2], "h": [h1, h2], "c": c, "stmt0": [h1.fields.get("stmt"), h2.fields.get("stmt")]}
+    ex = explore(loader, setup_2, lambda it, st: it.call(tkit.method(it, st["t"], "conditional_expr"), [st["items"]], {}))
+    check.absorb(ex, f"conditional_expr {inst}")
+    if ex.paths:
+        check.instances_generated += 1
+    for p in ex.paths:
+        pc = p.ctx.pc
+        check.ob("conditional_expr#total", inst, pc, p.outcome == "return", detail="" if p.outcome == "return" else f"raises {p.value!r}")
+        if p.outcome != "return":
+            continue
+        for k, arm in enumerate(("then", "else")):
+            st = p.state["h"][k].fields["stmt"]
+            ok = isinstance(st, Obj) and st.cls is Br and st.fields["cond"] is p.state["c"]
+            if ok:
+                t_, e_ = st.fields["then"], st.fields["otherwise"]
+                ok = (t_ is p.state["stmt0"][0] and e_.cls is Emp) if arm == "then" else (e_ is p.state["stmt0"][1] and t_.cls is Emp)
+            rp = ("c06.source", lambda mdl, arm=arm: {"case": f"cond-both-{arm}"}) if replay_on else None
+            check.ob("conditional_expr#statements-of-an-arm-run-only-if-that-arm-is-selected", f"{inst}: {arm} arm", pc, bool(ok), replay=rp,
+                     detail=f"statement of the {arm} arm is now {st!r}")
+
     # && / || : the right operand's side effect must only happen if the left operand does not decide the result
     for op in ("&&", "||"):
         inst = f"a {op} i++"
@@ -466,6 +499,35 @@ def gen_selected(loader, check, replay_on=True):
                      detail=f"final sequence order {tags}")
             check.ob("emit_final_seq_return#every-pending-effect-is-sequenced-exactly-once", inst, p.ctx.pc, tags.count("pending") == 1 and len(pending(p.state["t"])) == 0)
 
+    # two unused value operations, at a numbering where the names do not sort like the numbers (h_tmp9, h_tmp10): source order is kept
+    for n0 in (0, 9, 99):
+        inst = f"i++; j++;  (values unused, temporaries h_tmp{n0}, h_tmp{n0 + 1})"
+        check.instances_declared += 1
+
+        def setup_o(it, n0=n0):
+            t = tkit.mk_transformer(it, symbolic_count=False)
+            t.fields["il_ops_holder"].fields["hybrid_op_count"] = n0
+            tmps = []
+            for k in range(2):
+                h, _ = mk_hybrid(it, loader, "postinc")
+                tmps.append(it.call(tkit.method(it, t, "resolve_hybrid"), [h], {}))
+            for k, pend in enumerate(pending(t).values()):
+                pend.label = f"pending{k}"
+                pend.stubs["effect_var"] = c05.eff_stub
+            it.ctx.mark_pre(t)
+            return {"t": t, "items": tmps}
+        ex = explore(loader, setup_o, lambda it, st: it.call(tkit.method(it, st["t"], "emit_final_seq_return"), [st["items"], ""], {}))
+        check.absorb(ex, f"top level {inst}")
+        if ex.paths:
+            check.instances_generated += 1
+        for p in ex.paths:
+            check.ob("emit_final_seq_return#total", inst, p.ctx.pc, p.outcome == "return", detail="" if p.outcome == "return" else f"raises {p.value!r}")
+            if p.outcome != "return":
+                continue
+            tags = [a.tag for a in emit.as_tpl(p.value).atoms()]
+            check.ob("emit_final_seq_return#unused-value-operations-keep-their-source-order", inst, p.ctx.pc, tags == ["pending0", "pending1"], detail=f"final sequence order {tags}",
+                     replay=("c06.source", lambda mdl, n0=n0: {"case": f"order-{n0}"}) if replay_on else None)
+
     # dead arm of a constant condition: its side effect is evaluated zero times (removed everywhere)
     check.under_contract(loader, loader.load(tkit.M_H).globals["ILOpsHolder"].methods["update_hybrid_ref"])
     check.instances_declared += 1
@@ -514,6 +576,30 @@ def replay_source(a):
         inc = [l.split("*")[1].split(" ")[0] for l in txt.splitlines() if "SEQN(2, op_ASSIGN_hybrid_tmp" in l][0]
         args = seq[seq.index("(") + 1:].split(", ")
         return args[1].strip() == inc, f"{{ x = n; n++; x = n; }}: the increment {inc} is the first effect of {seq.strip()} - before x = n (C: between the two assignments)"
+    if case.startswith("order-"):
+        n0 = int(case.split("-")[1])
+        c.transformer.il_ops_holder.hybrid_op_count = n0      # the counter is never reset across behaviours: any value is reachable
+        try:
+            txt = c.compile_c_stmt("{ int32_t i = 0; int32_t j = 0; i++; j++; RdV = i + j; }")
+        finally:
+            c.transformer.il_ops_holder.hybrid_op_count = 0
+        seq = [l for l in txt.splitlines() if "instruction_sequence =" in l][0]
+        incs = re.findall(r'// (h_tmp\d+) = HYB\(\+\+(\w)\)', txt)
+        order = re.findall(r"seq_\d+|op_\w+", seq)
+        # the pending sequence of i++ must come before that of j++
+        pend = [l.split("*")[1].split(" ")[0] for l in txt.splitlines() if "RzILOpEffect *seq_" in l and "op_ASSIGN_hybrid_tmp" in l]
+        pos = [seq.index(x) for x in pend if x in seq]
+        return pos != sorted(pos), f"counter at {n0}: {{ i++; j++; }} pending sequences {pend} appear at offsets {pos} of {seq.strip()}"
+    if case.startswith("cond-both-"):
+        arm = case.split("-")[2]
+        src = "{ int32_t i = 0; int32_t j = 0; RdV = RsV ? ({ i = 5; i; }) : ({ j = 6; j; }); }"
+        txt = c.compile_c_stmt(src)
+        gs = [l for l in txt.splitlines() if "BRANCH(" in l]
+        sides = []
+        for g in gs:
+            a = g[g.index("BRANCH(") + 7:g.rindex(")")].rsplit(", ", 2)
+            sides.append("then" if a[2].strip() == "EMPTY()" else ("else" if a[1].strip() == "EMPTY()" else "?"))
+        return arm not in sides, f"{src}: guards emitted for the arms {sides} ({len(gs)} BRANCH line(s)); the {arm} arm's statement must run only when that arm is selected"
     if case.startswith("cond-"):
         _, hk, arm = case.split("-", 2)
         if hk == "stmt":
@@ -524,6 +610,12 @@ def replay_source(a):
                "stmt-expr": "{ int32_t i = 0; RdV = RsV ? 7 : ({ i = 5; i; }); }"}[hk]
         txt = c.compile_c_stmt(src)
         guarded = [l for l in txt.splitlines() if "BRANCH(" in l]
+        if hk == "stmt-expr" and guarded:
+            # the statement of the arm must be on the arm's own side of the BRANCH: BRANCH(c, stmt, EMPTY) for then, BRANCH(c, EMPTY, stmt) for else
+            g = guarded[0]
+            args = g[g.index("BRANCH(") + 7:g.rindex(")")].rsplit(", ", 2)
+            side_ok = (args[2].strip() == "EMPTY()" and args[1].strip() != "EMPTY()") if arm == "then" else (args[1].strip() == "EMPTY()" and args[2].strip() != "EMPTY()")
+            return not side_ok, f"{src}: statement of the {arm} arm guarded by {g.strip()}"
         return not guarded, f"{src}: side effect of the {arm} arm guarded by: {guarded or 'nothing (runs unconditionally)'}"
     if case.startswith("logic-"):
         op = case.split("-", 1)[1]
